@@ -41,6 +41,10 @@ Next == \/ \E k \in {"S", "W", "WD"}, n \in 1..MaxAllocs : GenField(k, n) /\ fra
 Spec == Init /\ [][Next]_vars
 
 InvSharing == (gphase = "done" /\ ~WeakBeforeStrong(fs)) => (De(fs) # <<0 - 1>> /\ SameSharing(fs, De(fs)))
+(* the serializer's table defines every live allocation exactly once and refers to it everywhere else *)
+InvEmitOnce == gphase = "done" =>
+                 /\ DefCount(fs) = Cardinality({fs[i].n : i \in {i \in 1..Len(fs) : fs[i].k # "WD"}})
+                 /\ DefCount(fs) + AliasCount(fs) = Cardinality({i \in 1..Len(fs) : fs[i].k # "WD"})
 InvWeakFirstIsError == (gphase = "done" /\ WeakBeforeStrong(fs)) => De(fs) = <<0 - 1>>
 (* C15 *)
 InvCleanAtBoundary == Active = 0 => tl = CleanTL
